@@ -32,8 +32,8 @@ Clauses decided here on the implementation's answer:
           max|c_i| >= 1/||S^-1||_inf >= 1/||(D^-1 A)^-1||_inf >= 1e-3: the scaled pivot the code tests is the
           largest scaled entry of that column, three orders of magnitude above any tolerance <= 1e-6.
  4. non-square A, rhs of another length, the empty system, inconsistent nested rows: an error (of any kind: the
-    statement does not name it, the kind is compared with the model only); a panic is a failure for every `gauss`
-    request.
+    statement does not name it, so neither this oracle nor the comparison with the model distinguishes error kinds);
+    a panic is a failure for every `gauss` request.
  5. `back` / `forward`: when the call is inside its precondition (1 <= size for back; size <= both matrix
     dimensions and both slice lengths) it must not panic; with a non-zero diagonal the answer satisfies the
     triangular system in the form of clause 1, T = the triangle the routine is specified to read (the other
@@ -66,7 +66,7 @@ RULE = ("exhaustive: all 625 2x2 matrices over -2..2 x 4 right-hand sides x tol 
         "u8 matrices; every order 11..40 (48, 64 thorough) incl. triangular solves; rows scaled by 2^+-70 / 2^+-200, whole system "
         "at 2^-250..2^250, column scalings, tiny/huge/mixed right-hand sides, one tiny + one huge row, single entries 2^-60..2^-20; "
         "graded / already reduced columns (tail 10^-1..10^-17 of the head); last scaled pivot 10^-1..10^-17; scaled pivot equal to a "
-        "dyadic tolerance; subnormal / near-overflow systems (correspondence only); sign patterns (all negative, negative row / "
+        "dyadic tolerance; subnormal / near-overflow systems (correspondence only, and not where a component overflowed); sign patterns (all negative, negative row / "
         "column maxima), triangular / diagonal / permutation inputs with signed zeros, right-hand sides with leading / trailing "
         "zeros and unit vectors; near ties 1 +- 10^-t in the pivot column; NaN / inf in A, b, tol (correspondence only); "
         "triangular solves with NaN / inf / 1e300 in the triangle that must not be read, each repeated on a used buffer and on a "
@@ -309,8 +309,8 @@ def gauss_oracle(h, w, A, b, tol, ans, want_ratio=False):
         return "gaussian_elimination panicked"
     if kind == "?":
         return "unreadable answer: " + ans[:60]
-    # (the statement asks for "errors rather than panics" and for a refusal "with an error": WHICH error is compared
-    #  with the model only, a change of kind alone is not a violation of the property)
+    # (the statement asks for "errors rather than panics" and for a refusal "with an error": it names no error kind, so
+    #  a change of kind alone is neither a violation of the property nor a disagreement with the model - see `compare`)
     if h != w:
         return None if kind == "err" else "non-square matrix (%dx%d) was not refused" % (h, w)
     if len(b) != h:
@@ -455,16 +455,49 @@ def _both_backward_stable(req, impl, model):
 
 
 def compare(req, impl, model):
-    """outcome kinds exactly; solution vectors numerically: bit-equal / both NaN / equal infinities, or
+    """outcome (a vector / an error / a panic) exactly; WHICH error is not compared: the statement only says "refused
+    with an error" and "get errors rather than panics" and names no kind (on the unmodified tree the kinds are
+    identical; reporting the empty system through another variant is not a deviation the property can see).
+    Solution vectors numerically: bit-equal / both NaN / equal infinities, or
     |a-b| <= 1e-9 * max(|impl|_inf, |model|_inf) (on the unmodified tree they are bit-identical); a larger difference
     is accepted when BOTH vectors pass the property's exact backward-error test (an ill-conditioned system amplifies a
-    harmless re-association of the floating-point sums beyond any fixed envelope)"""
+    harmless re-association of the floating-point sums beyond any fixed envelope), or when the system lies in the
+    overflow regime (`_overflow_regime`)"""
     if impl == model:
         return None
     r = _compare_strict(req, impl, model)
     if r is not None and r.startswith("component") and _both_backward_stable(req, impl, model):
         return None
+    if r is not None and (r.startswith("component") or r.startswith("model has non-finite")) \
+            and _overflow_regime(req, impl, model):
+        return None
     return r
+
+
+def _overflow_regime(req, impl, model):
+    """A `gauss` system with an entry outside 2^-340 .. 2^340 (the subnormal / near-overflow families: far outside the
+    statement's "row scalings 2^-30..2^30", generated for panics and for the model only) on which at least one of the
+    two solution vectors has a non-finite component: an intermediate product overflowed on one side.  Whether
+    a_ij * x_j + s overflows depends on whether the product is rounded before the addition (a fused multiply-add or a
+    re-associated sum moves that boundary); the property says nothing there and its oracle abstains.  Both sides must
+    have returned a vector of the same length (outcome and length stay compared)."""
+    try:
+        cmd = req[:req.index(" ")]
+        if cmd not in ("gauss", "gaussjag"):
+            return False
+        h, w, A, b, tol, jag = _parse_gauss(req)
+        if jag or h != w or len(b) != h or h == 0:
+            return False
+        vals = [x for row in A for x in row] + list(b)
+        if any(v is None for v in vals) or in_safe_range(vals):
+            return False
+        ki, xi = parse_answer(impl)
+        km, xm = parse_answer(model)
+        if ki != "ok" or km != "ok" or len(xi) != len(xm):
+            return False
+        return any(v is None for v in xi) or any(v is None for v in xm)
+    except Exception:
+        return False
 
 
 def _compare_strict(req, impl, model):
@@ -473,8 +506,10 @@ def _compare_strict(req, impl, model):
     ti, tm = impl.split(), model.split()
     if not ti or not tm or ti[0] != tm[0]:
         return f"outcome: impl `{' '.join(ti[:2])}` model `{' '.join(tm[:2])}`"
+    if ti[0] == "err":
+        return None                       # two refusals: the statement does not name the error kind
     if ti[0] != "ok":
-        return None if ti[:2] == tm[:2] else f"error kind: impl {ti[1:2]} model {tm[1:2]}"
+        return None if ti[:2] == tm[:2] else f"outcome: impl `{' '.join(ti[:2])}` model `{' '.join(tm[:2])}`"
     if len(ti) != len(tm) or ti[1] != tm[1]:
         return "solution lengths differ"
     a = [fval(x) for x in ti[2:]]
